@@ -98,9 +98,19 @@ int create_msa_tree(struct msa* msa, struct aln_param* ap,struct aln_tasks* t)
         return OK;
 }
 
+#ifndef KV_SPARE
+#define KV_SPARE 0
+#endif
 void h_c01_run(void)
 {
+#ifdef KV_LIFECYCLE
+        /* C16 / C05 (leak on the success path): the msa is shaped like one a reader hands out -- KV_SPARE pre-allocated, unused
+           records behind the KV_N used ones (alloc_msa allocates every slot) and the member lists of the real set_sip_nsip --
+           and is released with the real kalign_free_msa at the end; the query runs with CBMC's memory-leak check */
+        struct msa* msa = kv_mk_msa_raw(KV_N + KV_SPARE);
+#else
         struct msa* msa = kv_mk_msa_raw(KV_N);
+#endif
         int i, j, k, rc, expect_n = 0, status;
         char** arr = NULL;
         int arr_len = -1;
@@ -134,6 +144,15 @@ void h_c01_run(void)
                 msa->sequences[i]->rank = kv_in_int();           /* whatever was there before */
                 if(kv_len[i] > 0){ expect_n++; }
         }
+#ifdef KV_LIFECYCLE
+        msa->numseq = KV_N;
+        for(i = KV_N; i < KV_N + KV_SPARE; i++){
+                msa->sequences[i] = kv_mk_seq_raw(0, KV_MAXLEN + 1);
+                for(j = 0; j <= KV_MAXLEN + 1; j++){ msa->sequences[i]->gaps[j] = 0; }
+        }
+        rc = set_sip_nsip(msa);
+        KV_ASSUME(rc == OK);
+#endif
         msa->aligned = status;
         msa->biotype = kv_in_u8();
         KV_ASSUME(msa->biotype == ALN_BIOTYPE_DNA || msa->biotype == ALN_BIOTYPE_PROTEIN);
@@ -180,6 +199,13 @@ void h_c01_run(void)
                         }
                 }
         }
+#ifdef KV_LIFECYCLE
+        if(arr){
+                for(i = 0; i < msa->numseq; i++){ free(arr[i]); }
+                free(arr);
+        }
+        kalign_free_msa(msa);          /* after this nothing the library (or the harness) allocated may remain: --memory-leak-check */
+#endif
         KV_REACH();
 }
 #ifdef KV_NATIVE
